@@ -16,12 +16,15 @@ struct Cfg {
   uint32_t fill_pattern = 0;
   int max_live = 4;
   std::vector<int> ops;   // alphabet as raw op ids; empty = the standard alphabet (raw ops 0..33)
+  std::vector<int> prefix; // raw ops applied to every fresh allocator before the history starts (search from a non-initial state)
   int raw(int i) const { return ops.empty() ? i : ops[i]; }
   std::string name() const {
     char b[96];
     if (block_size != 65536) snprintf(b, sizeof b, "opt=%#x,g=%u,b=%u", options, granularity, block_size);
     else snprintf(b, sizeof b, "opt=%#x,g=%u", options, granularity);
-    return b;
+    std::string n = b;
+    if (!prefix.empty()) { n += ",p="; for (size_t i = 0; i < prefix.size(); i++) n += (i ? "." : "") + std::to_string(prefix[i]); }
+    return n;
   }
 };
 
@@ -48,7 +51,10 @@ struct Sys {
     p.fill_pattern = c.fill_pattern;
     alloc = new JitAllocator(&p);
     G = c.granularity; B = c.block_size;
+    std::string why;
+    for (int op : c.prefix) if (!apply_raw(op, why)) { fprintf(stderr, "c09: prefix op %d fails: %s\n", op, why.c_str()); prefix_failed = true; break; }
   }
+  bool prefix_failed = false;
   ~Sys() { delete alloc; }
   Sys(const Sys&) = delete;
 
@@ -463,18 +469,32 @@ int main(int argc, char** argv) {
     }
     if (c.opt("depth").empty()) phases.push_back(Phase{g, c.thorough() ? 5 : 4, 1});
   }
+  {
+    // search from non-initial states: a block that was filled exactly (B/2 + B/2 + (B-pad) in the doubled first block), and a
+    // pool that has already grown to two blocks; standard alphabet
+    std::vector<Cfg> g;
+    for (uint32_t opt : {0u, (uint32_t)(kFill | kMulti)}) {
+      Cfg x; x.fill_pattern = 0xA1B2C3D4u; x.options = opt; x.granularity = 64;
+      x.prefix = {3, 3, 4}; g.push_back(x);          // alloc(B/2), alloc(B/2), alloc(B-pad): the first block is exactly full
+      x.prefix = {3, 4, 3}; g.push_back(x);
+      if (c.thorough()) { x.prefix = {4, 4, 5}; g.push_back(x); x.prefix = {2, 2, 3, 4}; x.max_live = 5; g.push_back(x); }
+    }
+    if (c.opt("depth").empty()) phases.push_back(Phase{g, c.thorough() ? 4 : 3, 1});
+  }
   const Cfg* cur_cfg = nullptr;
   xplor::case_formatter() = [&](const std::string& cfg_name, const std::vector<int>& h) {
-    std::string ops; for (size_t i = 0; i < h.size(); i++) { if (i) ops += ","; ops += std::to_string(cur_cfg ? cur_cfg->raw(h[i]) : h[i]); }
-    unsigned o = 0, g = 0, bs = 65536; sscanf(cfg_name.c_str(), "opt=%x,g=%u,b=%u", &o, &g, &bs);
-    char cf[64]; snprintf(cf, sizeof cf, "cfg=%x,%u,%d,%u", o, g, 4, bs);
+    std::string ops;
+    if (cur_cfg) for (int op : cur_cfg->prefix) ops += std::to_string(op) + ",";
+    for (size_t i = 0; i < h.size(); i++) { if (i) ops += ","; ops += std::to_string(cur_cfg ? cur_cfg->raw(h[i]) : h[i]); }
+    unsigned o = 0, g = 0, bs = 65536; sscanf(cfg_name.c_str(), "opt=%x,g=%u,b=%u", &o, &g, &bs);   // (a ",p=" suffix is not parsed: the prefix ops are part of ops=)
+    char cf[64]; snprintf(cf, sizeof cf, "cfg=%x,%u,%d,%u", o, g, cur_cfg ? cur_cfg->max_live : 4, bs);
     return std::string("harness=c09_jitalloc\n") + cf + "\nops=" + ops + "\n";
   };
   int done_cfgs = 0;
   long long unit = 0;
   std::string bound;
   for (auto& ph : phases) {
-    bound += std::to_string(ph.cfgs.size()) + " configurations to depth " + std::to_string(ph.depth) + (ph.cfgs[0].ops.empty() ? "" : " over the block-growth alphabet") + "; ";
+    bound += std::to_string(ph.cfgs.size()) + " configurations to depth " + std::to_string(ph.depth) + (ph.cfgs[0].ops.empty() ? "" : " over the block-growth alphabet") + (ph.cfgs[0].prefix.empty() ? "" : " from non-initial states (exactly filled block)") + "; ";
     for (size_t ui = 0; ui < ph.cfgs.size() * ph.R; ui++) {
       if (!c.mine(unit++)) continue;
       if (c.out_of_time()) break;
